@@ -13,6 +13,11 @@ from .. import common, dataref, gen_init, gen_types, pipeline
 PID = 'C07'
 FEATURES = frozenset(['bitfield', 'zerowidth', 'unnamed_bf', 'anon', 'packed', 'alignas'])
 
+def U8(ch):
+    """source bytes of a character, as the latin-1 text the units are written from"""
+    return ch.encode('utf-8').decode('latin-1')
+
+
 EXTRA_STATIC = [
     'char es0[] = "hello";', 'char es1[3] = "abc";', 'char es2[8] = "ab";', 'char es3[] = { "braced" };', 'unsigned char es4[] = "\\377\\0x";', 'signed char es5[4] = "";',
     'int es6[] = { [5] = 1, [2] = 7, 8 };', 'int es7[4] = { 1, 2, 3, 4, [1] = 9, [0] = 8 };', 'int es8[][2] = { 1, 2, 3, 4, 5 };', 'int es9[2][3] = { { 1 }, { 2, 3 } };',
@@ -29,7 +34,12 @@ EXTRA_STATIC = [
     'struct { unsigned long a : 50; unsigned long b : 14; } es55 = { 0x3ffffffffffff, 0x3fff };', 'struct { char c; int bf : 5; } es56 = { 1, -16 };', 'struct { int : 3; int v : 4; } es57 = { 7 };',
     'unsigned short es58[3] = u"abc";', 'unsigned es61[2] = U"xy";', "__typeof__(L'a') es62[1] = L\"z\";", 'struct { unsigned short tag[4]; int after; } es63 = { u"abcd", 7 };', 'char es64[2][3] = { "abc", "de" };',
     'int es59 = { 5 };', 'char *es60 = { "q" };',
-]
+] + [t.replace('E9', U8('\u00e9')).replace('EU', U8('\u20ac')).replace('EM', U8('\U0001f600')) for t in [
+    # an escape followed by multi-byte source characters inside one literal token (the bytes after the escape are still UTF-8)
+    'char es70[] = "\\x41E9";', 'char es71[8] = "\\101EUx";', 'unsigned short es72[] = u"\\x41E9EU";', 'unsigned es73[] = U"\\x41EME9";', 'struct { char s[8]; int k; } es74 = { "\\1E9", 2 };',
+    'int es75[] = L"\\nEU\\x7fE9";', 'unsigned char es76[] = u8"E9\\xffE9";', 'struct { unsigned short w[4]; char c[6]; } es77 = { u"\\0E9", "EU\\0a" };', 'char es78[2][5] = { "\\tE9", "E9\\t" };',
+    'char *es79 = "x\\177E9" "EU";', 'unsigned short *es80 = u"a" u"\\x1E9";',
+]]
 
 
 def static_unit(rng, ntypes):
